@@ -2,9 +2,10 @@
 """Run the registered quick check of each seeded change's property against /repo with the change applied, undo it, and
 record in seeded/<id>/meta.json which obligation caught it.  Usage: python3-vt vp/seed_eval.py [seed-id ...]
 (never run while another check is using /repo: the working tree is modified temporarily)"""
-import os, sys, json, subprocess, re
+import os, sys, json, subprocess, re, shutil
 ROOT = os.path.dirname(os.path.dirname(os.path.abspath(__file__)))
 REPO = "/repo"
+SCRATCH_EV = os.path.join(os.environ.get("TMPDIR", "/tmp"), "vp_seed_eval_evidence")
 CHANGE = {
     "C01-3A": ("parallel_in_blocks_of: '>=' instead of '>' when clipping the last block: an exactly full last block becomes empty", "n > 0 with n % BLOCK_SIZE == 0"),
     "C01-3B": ("enkiTS TryRunTask (split branch): running count decremented before the kept piece is executed: missing join", ">= 2 threads, n >= 2, a worker still inside its first piece when the others finish"),
@@ -84,7 +85,9 @@ def main():
             print(sid, "PATCH-FAILS")
             continue
         try:
-            p = subprocess.run(["python3-vt", os.path.join(ROOT, "vp", "check.py"), pid, "--tier", "quick"], capture_output=True, text=True, cwd=ROOT, timeout=3600)
+            # evidence of a run on a deliberately broken tree never goes to /verif/evidence (see check.py)
+            env = dict(os.environ, VP_EVIDENCE_DIR=SCRATCH_EV)
+            p = subprocess.run(["python3-vt", os.path.join(ROOT, "vp", "check.py"), pid, "--tier", "quick"], capture_output=True, text=True, cwd=ROOT, timeout=3600, env=env)
             out = p.stdout
             rc = p.returncode
         finally:
@@ -97,6 +100,7 @@ def main():
         print(sid, "DETECTED" if meta["detected_by"] else "MISSED rc=%d" % rc, (obs[:1] or [""])[0][:160])
     for f in os.listdir(os.path.join(ROOT, "replays")):
         os.unlink(os.path.join(ROOT, "replays", f))
+    shutil.rmtree(SCRATCH_EV, ignore_errors=True)
     return 0
 
 
